@@ -251,7 +251,11 @@ def worker_main(argv):
     seed, shard, nshards, budget = int(seed), int(shard), int(nshards), float(budget)
     bind_code_under_test()
     mod = load_prop(pid)
-    units = mod.units(tier)[shard::nshards]
+    units = mod.units(tier)
+    limit = int(os.environ.get('GV_LIMIT', '0') or 0)
+    if limit:
+        units = units[:limit]
+    units = units[shard::nshards]
     ctx = run_units(mod, units, seed, tier, budget)
     tmp = out + '.tmp'
     with open(tmp, 'w') as f:
